@@ -230,4 +230,32 @@ Proof.
   eapply TAIL; [| | | |exact H]; try reflexivity; try assumption.
 Qed.
 
+
+(* ---------------------------------------------------------------- what the handler leaves alone *)
+Ltac brk H :=
+  repeat (match type of H with
+  | context [if ?c then _ else _] => destruct c eqn:?
+  | context [match ?c with Some _ => _ | None => _ end] => destruct c eqn:?
+  | context [match ?c with DHeaders _ => _ | DBlocked => _ | DFailed => _ end] => destruct c eqn:?
+  | context [match ?c with pair _ _ => _ end] => destruct c eqn:?
+  end; try discriminate H).
+
+Lemma handle_frame : forall O t data st ended evs st',
+  handle_rp_frame fx O client t data st ended = HVal evs st' ->
+  s_id st' = s_id st /\ s_cur st' = s_cur st /\ H3Parse.s_ended st' = H3Parse.s_ended st
+  /\ (t = 0 -> H3Parse.s_hstate st' = 1).
+Proof.
+  intros O t data st ended evs st' H. unfold handle_rp_frame, endmark in H.
+  brk H; inversion H; subst; simp_proj; repeat split; try reflexivity; intros; lia.
+Qed.
+
+Lemma handle_blocked : forall O t data st ended st',
+  handle_rp_frame fx O client t data st ended = HBlocked st' ->
+  H3Parse.s_hstate st' = H3Parse.s_hstate st /\ s_clen st' = s_clen st /\ s_expect st' = s_expect st
+  /\ s_id st' = s_id st /\ s_cur st' = s_cur st /\ H3Parse.s_ended st' = H3Parse.s_ended st /\ t <> 0.
+Proof.
+  intros O t data st ended st' H. unfold handle_rp_frame, endmark in H.
+  brk H; inversion H; subst; simp_proj; repeat split; try reflexivity; lia.
+Qed.
+
 End Ev.
